@@ -87,7 +87,7 @@ CLAIM = {
     "design_ref": "DESIGN.md §4 C05, §5 rows 6-8",
 }
 
-BUDGET = {"quick": 110, "thorough": 2600, "search": 2500}
+BUDGET = {"quick": 120, "thorough": 2600, "search": 2500}
 MAX_FAILURES = 30      # a verdict exists: stop generating (bounds the run time under a grossly broken cache)
 RUNOPS_BUDGET = {"quick": 200, "thorough": 6000, "search": 6000}
 T2_PAYLOAD_BASE = {"q", "exact_recent_days", "sim_threshold", "clusters_top_m", "owner_scope", "owner", "k_retrieval", "now",
@@ -341,12 +341,26 @@ def process(ctx: Ctx, comp: str, case: dict, batch: Batch, etags: Tuple[dict, di
         raise core.Infra(f"rig error: {e}")
     ctx.record_case(comp, case, _tags(case, on, off))
     if div:
-        small = shrink(ctx, case, div) if do_shrink else case
-        d2 = diverges(ctx, small) or div
-        key = D.classify(small, d2)
+        # attribution by read-set difference (fill request vs served request); a divergence whose differing
+        # dimensions are all recorded findings needs no minimisation
+        key, keys = D.classify2(case, on, off, div)
+        small, d2 = case, div
+        recorded = any(k.get("key") == key and k.get("status", "open") == "open" for k in ctx.known)
+        if do_shrink and not recorded:
+            small = shrink(ctx, case, div)
+            try:
+                on2, off2, d2n = run_pair(ctx, small)
+            except Exception:
+                on2, off2, d2n = on, off, None
+            if d2n:
+                d2 = d2n
+                key, keys = D.classify2(small, on2, off2, d2)
+            else:
+                small = case
         ctx.monitor_fail(comp, key.split(":", 1)[1], small,
                          f"caches on ({small['mode']}) vs off diverge at turn {d2['turn']} stage {d2['stage']} "
-                         f"(served from {d2.get('src')}): {d2['diff'][:300]}", None, key=key)
+                         f"(served from {d2.get('src')}; differing read-set dimensions: {keys}): {d2['diff'][:300]}",
+                         None, key=key)
     for d in check_keys(case, on, batch):
         ctx.mismatch("keys", case, d, None, None)
     add_suff(case, off, batch)
@@ -576,7 +590,7 @@ def replay(ctx: Ctx, rec: dict) -> int:
             continue
         on, off, div = run_pair(ctx, case)
         if div:
-            print(f"REPLAY component={comp} key={D.classify(case, div)} caches on ({case['mode']}) vs off DIVERGE at turn {div['turn']} "
+            print(f"REPLAY component={comp} key={D.classify2(case, on, off, div)[0]} caches on ({case['mode']}) vs off DIVERGE at turn {div['turn']} "
                   f"stage {div['stage']} (served from {div.get('src')}): {div['diff'][:400]}")
             rc = 1
         else:
